@@ -132,6 +132,21 @@ impl<T: AsyncRead + Unpin> Stream<T> {
         })
     }
 
+    /// Read and discard the payload of a frame that is not going to be used, so that the
+    /// stream stays aligned on the next frame header.
+    pub async fn skip_payload(&mut self, size: usize) -> std::io::Result<()> {
+        let mut scratch = [0u8; 256];
+        let mut remaining = size.min(MAX_PAYLOAD_SIZE);
+
+        while remaining > 0 {
+            let chunk = remaining.min(scratch.len());
+            self.inner.read_exact(&mut scratch[..chunk]).await?;
+            remaining -= chunk;
+        }
+
+        Ok(())
+    }
+
     pub async fn recv_packet<P: Packetize>(&mut self, size: usize) -> std::io::Result<P> {
         if size == 0 {
             return Err(std::io::Error::new(
@@ -141,6 +156,8 @@ impl<T: AsyncRead + Unpin> Stream<T> {
         }
 
         if P::MESSAGE_SIZE.is_some() && size != P::MESSAGE_SIZE.unwrap() {
+            self.skip_payload(size).await?;
+
             return Err(std::io::Error::new(
                 std::io::ErrorKind::InvalidData,
                 format!(
